@@ -316,6 +316,11 @@ impl TryFrom<Font> for FontInfo {
     type Error = Error;
 
     fn try_from(font: Font) -> Result<Self, Self::Error> {
+        // everything below, and all later work, assumes the default master exists
+        if font.masters.is_empty() {
+            return Err(Error::NoDefaultMaster);
+        }
+
         let master_indices: HashMap<_, _> = font
             .masters
             .iter()
@@ -752,6 +757,19 @@ mod tests {
         let dir = PathBuf::from("../resources/testdata");
         assert!(dir.is_dir(), "{dir:?} isn't a dir");
         dir
+    }
+
+    #[test]
+    fn no_masters_is_an_error_not_a_panic() {
+        let font = Font::load_from_string(
+            "{\n.formatVersion = 3;\naxes = (\n{\nname = Weight;\ntag = wght;\n}\n);\nunitsPerEm = 1000;\n}",
+        )
+        .unwrap();
+        assert!(font.masters.is_empty());
+        assert!(matches!(
+            FontInfo::try_from(font),
+            Err(fontir::error::Error::NoDefaultMaster)
+        ));
     }
 
     #[test]
